@@ -402,6 +402,14 @@ struct conf_node_inaddr *conf_register_inaddr(struct conf_node_object *parent, c
     cnode = conf_register_node(parent, name, CONF_INADDR, sizeof(*cnode));
     cnode->def_hostname = hostname;
     cnode->def_service = service;
+    /* Like the other setting types, start out with the defaults unless
+     * the configuration file already supplied a value. */
+    if (!cnode->base.present) {
+        xfree(cnode->hostname);
+        xfree(cnode->service);
+        cnode->hostname = xstrdup(hostname);
+        cnode->service = xstrdup(service);
+    }
     cnode->state = CA_UNKNOWN;
     return cnode;
 }
